@@ -33,7 +33,24 @@
 (* macro DoneWG at every place the code calls it, Wait = cu2.              *)
 (*                                                                         *)
 (* Every Add, Done, possibly blocking send and early return is a label or  *)
-(* an alternative of a label.  A session is its own user; Owner(n) owns    *)
+(* an alternative of a label.  Grain of atomicity (chosen so that the 2x2   *)
+(* instance stays checkable): a channel receive and the handler it starts  *)
+(* are one step (hub: join/unreg; topic: reg/unreg/clientMsg/meta/exit,     *)
+(* including the reply and the Done at the end of the handler); Add plus    *)
+(* the lookup that follows it is one step (nothing else can see the slot    *)
+(* in between); Wait + registry removal + unsubAll is one step.  Blocking   *)
+(* sends keep their own label (hx: Topic.exit, tk: hub.unreg from the idle  *)
+(* timer, if2: topicInit re-queueing to hub.join, cu5: Session.stop, rl3 /  *)
+(* rp2: the as-built two-step lookup-then-send of leave / publish, cp2 /    *)
+(* cp4: the blocking receives of purgeChannels).                            *)
+(* Bounds: MaxReq requests per session, TotalReq in total, MaxGen           *)
+(* incarnations per topic name (GenBound checks it is never exhausted).    *)
+(* Quiescent = every actor idle at its loop head with empty queues; Final   *)
+(* = Quiescent and nobody may ask any more: NextQ adds a stuttering step    *)
+(* only there, so TLC's own deadlock check reports every other state       *)
+(* without a successor (a reader parked in Add, cleanUp parked in Wait or   *)
+(* purgeChannels, topicInit parked on a nil channel, ...).                  *)
+(* A session is its own user; Owner(n) owns    *)
 (* topic n.  The environment may evict an attached session (owner's        *)
 (* {del sub} -> evictUser with a notice), make a client slow, make a       *)
 (* topic load fail, and fire an armed idle timer.                          *)
